@@ -13,7 +13,7 @@ pub fn prop() -> Prop {
     Prop {
         id: "C16",
         level: "exploration",
-        rule: "helices with centre within +-3 m, radius 0.03..5 m, any phase, pitch from {0, +-5e-324, +-1e-310, +-1e-17 .. +-1e2 (log-uniform and listed specials incl. values next to f64::EPSILON and the e=1 resonance h = 2 pi sqrt(r R))}; points in the drift volume and points within 1 cm of the helix (z offset scaled to the pitch). Helix::closest_t (hook, 20 iterations, tolerance EPSILON as in production) must return t in [-pi, pi], not NaN; an interior t is compared with a brute-force global minimum (dense grid adapted to the pitch + ternary refinement, distances evaluated with the library's Helix::at). Hook-free part: t_inner/t_outer and VertexInfo.tracks[i].1 of fitted tracks against Track::at. Non-trivial = distinct (helix, point) cases with an interior result. Also: exact special geometry (point on the helix axis, opposite the t = 0 point in the plane z = z0, on the curve, half a pitch away), phases of many turns, points beyond the ends of the revolution, Kepler resonance e = 1. Round 4: tracks fitted (library fit through the cluster hook) to curlers that stay inside the drift volume and miss a window of their hits around the farthest / nearest point, to helices of special pitch and to physical tracks: t_inner / t_outer in range always, and minimal when the end points are unambiguous and the helix is inside the stated ranges. Round 6: pitches on either side of powers of f64::EPSILON, on-axis points up to 1.2 m from the plane of the turn; clusters of 513..2049 hits. Fitted tracks whose helix lies outside the quantified ranges (radius 0.03..5 m, centre within 3 m) are held to the range / NaN clause only. Round 8: points 1e-12 .. 1e-4 m off the helix axis. Round 9: points diametrically opposite the helix point of equal height with eccentricity within 2e-3 of 1.",
+        rule: "helices with centre within +-3 m, radius 0.03..5 m, any phase, pitch from {0, +-5e-324, +-1e-310, +-1e-17 .. +-1e2 (log-uniform and listed specials incl. values next to f64::EPSILON and the e=1 resonance h = 2 pi sqrt(r R))}; points in the drift volume and points within 1 cm of the helix (z offset scaled to the pitch). Helix::closest_t (hook, 20 iterations, tolerance EPSILON as in production) must return t in [-pi, pi], not NaN; an interior t is compared with a brute-force global minimum (dense grid adapted to the pitch + ternary refinement, distances evaluated with the library's Helix::at). Hook-free part: t_inner/t_outer and VertexInfo.tracks[i].1 of fitted tracks against Track::at. Non-trivial = distinct (helix, point) cases with an interior result. Also: exact special geometry (point on the helix axis, opposite the t = 0 point in the plane z = z0, on the curve, half a pitch away), phases of many turns, points beyond the ends of the revolution, Kepler resonance e = 1. Round 4: tracks fitted (library fit through the cluster hook) to curlers that stay inside the drift volume and miss a window of their hits around the farthest / nearest point, to helices of special pitch and to physical tracks: t_inner / t_outer in range always, and minimal when the end points are unambiguous and the helix is inside the stated ranges. Round 6: pitches on either side of powers of f64::EPSILON, on-axis points up to 1.2 m from the plane of the turn; clusters of 513..2049 hits. Fitted tracks whose helix lies outside the quantified ranges (radius 0.03..5 m, centre within 3 m) are held to the range / NaN clause only. Round 8: points 1e-12 .. 1e-4 m off the helix axis. Round 10: normal pitches between the subnormals and 1e-17 m (log-uniform 1e-307..1e-17 and values on either side of sqrt / cbrt of f64::MIN_POSITIVE). Round 9: points diametrically opposite the helix point of equal height with eccentricity within 2e-3 of 1.",
         assumptions: &["distance evaluated with the library's own Helix::at: only the minimisation is judged", "the grid (>= 20001 points, denser for large pitch) resolves the at most two local minima per revolution"],
         profiles: both,
         shards: shards16,
@@ -127,7 +127,10 @@ pub fn check_one(ctx: &mut Ctx, p: [f64; 6], sp: SpacePoint, t: f64, what: &str)
 fn run(ctx: &mut Ctx) {
     let specials = [0.0, 5e-324, -5e-324, 1e-310, -1e-310, 2.2e-308, 1e-17, -1e-17, 1e-16, 2.2e-16, f64::EPSILON, -f64::EPSILON, 2.3e-16, 1e-15, 1e-12, 1e-9, 1e-6, 1e-4, 1e-3, 1e-2, 0.1, -0.1, 0.5, -0.5, 1.0, 3.0, 10.0, 100.0, -100.0,
         // either side of powers of f64::EPSILON (4.9e-32, 1.49e-8, 6.06e-6, 1.22e-4): a guard written on h^2, h^3 or sqrt(h)
-        4e-32, 6e-32, 2e-9, 5e-9, -8e-9, 1e-8, 1.4e-8, -1.4e-8, 1.6e-8, 3e-8, 1e-7, 5e-6, 7e-6, -7e-6, 1.1e-4, 1.3e-4];
+        4e-32, 6e-32, 2e-9, 5e-9, -8e-9, 1e-8, 1.4e-8, -1.4e-8, 1.6e-8, 3e-8, 1e-7, 5e-6, 7e-6, -7e-6, 1.1e-4, 1.3e-4,
+        // "arbitrarily small": normal numbers far below 1e-17, on either side of sqrt / cbrt of f64::MIN_POSITIVE
+        // (1.49e-154, 2.8e-103) where h^2 / h^3 start to underflow and 1/h^2 overflows (round 10)
+        1e-300, -1e-300, 1e-200, 1.4e-154, 1.5e-154, -1.5e-154, 1.6e-154, 2e-154, 3e-154, -4e-154, 1e-153, 5e-153, 2e-103, 3e-103, -3e-103, 1e-100, 1e-60, 1e-30, -1e-25, 1e-20];
     let n = ctx.tier.pick(40_000, 1_500_000);
     ctx.cases("hook", n, |ctx, i, rng| {
         ctx.eval();
@@ -136,7 +139,7 @@ fn run(ctx: &mut Ctx) {
             *rng.pick(&specials)
         } else {
             let s = if rng.bool() { 1.0 } else { -1.0 };
-            s * 10f64.powf(rng.range(-17.0, 2.0))
+            s * 10f64.powf(if rng.chance(0.1) { rng.range(-307.0, -17.0) } else { rng.range(-17.0, 2.0) })
         };
         // "any phase": mostly one turn, sometimes many turns away from zero (fit parameters are unconstrained)
         let phase = match rng.below(8) {
